@@ -206,8 +206,22 @@ func Gen09(rnd *rand.Rand) Stmt09 {
 			c, _ := operand("m")
 			switch rnd.Intn(6) {
 			case 0:
-				items = append(items, fmt.Sprintf("CASE WHEN m.id %% 2 = 0 THEN %s ELSE %s END AS c%d", a, b, i))
-				labels = append(labels, "case")
+				// conditions over NOT NULL columns (never NULL themselves) and the simple form as well as the searched one
+				switch rnd.Intn(5) {
+				case 0:
+					items = append(items, fmt.Sprintf("CASE WHEN m.id %% 2 = 0 THEN %s ELSE %s END AS c%d", a, b, i))
+				case 1:
+					items = append(items, fmt.Sprintf("CASE WHEN m.id > 1 THEN %s ELSE %s END AS c%d", a, b, i))
+				case 2:
+					items = append(items, fmt.Sprintf("CASE WHEN m.bi < 5 THEN %s WHEN m.id <= 3 THEN %s ELSE %s END AS c%d", a, c, b, i))
+				case 3:
+					items = append(items, fmt.Sprintf("CASE m.id WHEN 1 THEN %s WHEN 2 THEN %s ELSE %s END AS c%d", a, c, b, i))
+				default:
+					items = append(items, fmt.Sprintf("CASE m.ch WHEN 'a' THEN %s ELSE %s END AS c%d", a, b, i))
+				}
+				// branches are plain columns or literals of one base table: its own kind, so that the known nullability
+				// finding for CASE over arithmetic / outer-join operands (R4) does not absorb a failure here
+				labels = append(labels, "case-plain")
 			case 1:
 				items = append(items, fmt.Sprintf("CASE WHEN m.id = 1 THEN %s WHEN m.id = 2 THEN %s END AS c%d", a, b, i))
 				labels = append(labels, "case-no-else")
